@@ -106,7 +106,7 @@ def _run(fx, it, content, whole_mode, whole_enc, fit_single=None, chunk_version=
             else:
                 sa_info = None if hdr is None else ('SA',) + hdr[1:]
             boost = sym['boost']
-            if boost is not None and (boost['segments'] is not segments or boost['version'] != sym['final']['version']):
+            if boost is not None and boost['segments'] is not segments:
                 raise Unknown('boost_error_level is asked about another symbol than the one being built')
             if boost is not None and bool(boost['is_sa']) != (hdr is not None):
                 sa_info = ('booster told is_sa=%r' % (boost['is_sa'],), sa_info)
@@ -339,6 +339,8 @@ def sequence_symbols_consistent(fx):
                 if not (seen['final'] == seen['format'] == seen['code'] == (want_version, want_level) and seen['version_info'] == want_version
                         and seen['placed'] == want_version):
                     probs.append(f'symbol {i}: {seen}')
+                if sym['boost'] is not None and sym['boost']['version'] != want_version:
+                    probs.append(f'symbol {i}: the booster is asked about version {sym["boost"]["version"]}, the symbol is built in version {want_version}')
                 if sym.get('format_calls') != 1 or fmt.get('mask') != 5 or sym['code']['mask'] != 5:
                     probs.append(f'symbol {i}: mask chosen 5, announced {fmt.get("mask")}, stored {sym["code"]["mask"]}')
                 n_ = iso.size_of(want_version) if isinstance(want_version, int) and 1 <= want_version <= 40 else None
